@@ -299,6 +299,46 @@ def make_removal_script(rng, name, kind=None):
         lines += ["tlen", "tcapacity", "titer"]
     return f"=== {name} plan={plan} nkeys={n + 6}\n" + "\n".join(lines) + "\n"
 
+def make_layout_script(rng, name, kind):
+    """C08 / C17 deterministically for one element kind: tables of every small bucket count (with_capacity
+    1, 3, 4, 7, 8, 14, 15, 28, 29) with allocation_size / capacity read right after the allocation, after a
+    few insertions, after removals and after shrink_to_fit -- element sizes that are no multiple of the
+    control-byte alignment make the data part of 4- and 8-bucket tables need padding."""
+    plan = rng.choice(["seq", "mix", "zero"])
+    salt = rng.getrandbits(32)
+    lines = [f"kind {kind}"] + [f"hash {k} {plan_hash(plan, k, rng, salt)}" for k in range(40)]
+    st = 0
+    for cap in [1, 3, 4, 7, 8, 14, 15, 28, 29]:
+        lines += [f"twithcap {cap}", "tallocsize", "tcapacity", "tlen"]
+        for k in range(min(cap, rng.choice([1, 2, 3, cap]))):
+            st += 1
+            lines.append(f"tinsertunique {k} {st} {k}")
+        lines += ["tallocsize", "tcapacity", "titer"]
+        if cap >= 7:
+            lines += [f"tfindentryremove 0 id 0", "tshrinktofit", "tallocsize", "tcapacity"]
+        lines += [f"treserve {cap + 1}", "tallocsize", "tcapacity", "tclear", "tallocsize"]
+    lines.append("tdrop")
+    return f"=== {name} plan={plan} nkeys=40\n" + "\n".join(lines) + "\n"
+
+def make_zst_removal_script(rng, name, kind):
+    """C10 deterministically for zero-sized (and 1-byte) elements: retain / extract_if / drain on tables
+    whose elements sit in many different buckets (for a zero-sized type the bucket 'pointer' is its index)."""
+    plan = rng.choice(["seq", "mix"])
+    salt = rng.getrandbits(32)
+    lines = [f"kind {kind}"] + [f"hash {k} {plan_hash(plan, k, rng, salt)}" for k in range(64)]
+    st = 0
+    for n, op in [(5, "tretain 0"), (12, "textractif 1000 0 1 2 3 4 5 6 7 8 9 10 11 12"), (20, "tretain 1"), (9, "tdrain 3"),
+                  (28, "textractif 2 0 1 2 3"), (16, "tretain 0 0 1 2 3 4 5 6 7 8 9 10 11 12 13 14 15")]:
+        for k in range(n):
+            st += 1
+            lines.append(f"tinsertunique {k} {st} 0")
+        lines += ["tlen", op, "tlen", "titer", "tcapacity"]
+        for k in range(min(n, 4)):
+            lines.append(f"tfind {k} id {k}")
+        lines += ["tclear"]
+    lines.append("tdrop")
+    return f"=== {name} plan={plan} nkeys=64\n" + "\n".join(lines) + "\n"
+
 if __name__ == "__main__":
     seed, count = int(sys.argv[1]), int(sys.argv[2])
     rng = random.Random(seed)
